@@ -121,8 +121,12 @@ def run(ctx):
             if d.endswith(".callback") or d == "callback":
                 n += 1
                 held = la.held(fi, c)
-                ctx.ob("C16.order", fi.short(), f"callback-outside-locks:{n}", not held,
-                       f"consumer callback `{d}` invoked with locks {list(held) or 'none'} held", f"{fi.module.rel}:{c.lineno}")
+                inherited = {k: w for k, w in la.entry_locks().get(fi.qual, {}).items() if k.split(".")[0] in classes}
+                ctx.ob("C16.order", fi.short(), f"callback-outside-locks:{n}", not held and not inherited,
+                       f"consumer callback `{d}` invoked with locks {list(held) or 'none'} held here"
+                       + (f" and {sorted(inherited)} possibly held by a caller ({next(iter(inherited.values()))}): a callback that calls back "
+                          "into the LDM self-deadlocks on a plain Lock" if inherited else ", none inherited from any caller"),
+                       f"{fi.module.rel}:{c.lineno}")
     if n == 0:
         raise AnalysisError("C16: no consumer callback invocation found")
     ctx.extra["lock_kinds"] = {k: v for k, v in la.lock_kinds.items() if k.split('.')[0] in classes}
